@@ -4,6 +4,9 @@ From Coq Require Import List NArith ZArith.
 From Coq.Strings Require Import Byte.
 From SP Require Import Bytes Params Msgpack Crypto Errors Packets Chunker Rand Sign Verify SignProofs.
 From SP Require Import BaseX Encodings Armor ArmorProofs ArmoredForms.
+From SP Require Import GoLang GoLang2 GoAst GoAstProofs GoAstProofs4c GoAstSign GoAstProofs6a.
+From Coq Require String.
+Import String.StringSyntax.
 Import ListNotations.
 
 Section C05.
@@ -47,6 +50,130 @@ Theorem C05_armored_form_agrees (c : crypto) (vd : validator) (kr : sigring) (wi
   bind (verify_all c vd kr wire) (fun r => Ok (fst r, snd r, brand)).
 Proof. exact (armored_verify_agrees c vd kr wire brand). Qed.
 
+(* ---- source ties: the ATTACHED signing sender (/repo/sign_stream.go), lemmas of proofs/GoAstProofs6a.v ---- *)
+(* The terms f_saltpack_makeSignatureBlock, f_saltpack_signAttachedStream_{computeSig,signBlock,Write,Close},
+   f_saltpack_newSignAttachedStream and f_saltpack_checkSignBlockRead are generated on every run from the Go
+   syntax trees of /repo/sign_stream.go (gen/GoAstSign.v) and run by the evaluator of model/GoLang2.v.
+   The *signAttachedStream object is [g_sas st], st : sas_state = (version, headerHash, encoder, secretKey,
+   unread bytes of s.buffer, seqno).  `encoder.Encode(x)` is interpreted by an ARBITRARY function
+   enc_step : encoder object -> packet bytes -> encoder object' * error, so the theorems hold for every writer,
+   failing or not.  A Go error value is [g_errv e], e : gerr = None (nil) or Some (name, arguments).  The signing
+   key object is the model's secret key; Sign is ed_sign.  A callee that PANICS has no value: the evaluator
+   reports OStuck "extern" / OStuck "call", which the specification functions sas_block, sas_write, sas_close,
+   sas_new (defined in GoAstProofs6a.v: the model's pieces of model/Sign.v and Chunker.v in the order the code
+   runs them) carry explicitly as BStuck / WStuck / CloseStuck. *)
+
+(* makeSignatureBlock(version, sig, chunk, isFinal): for every version, signature, chunk and flag it returns the
+   V1 block object for Version1(), the V2 block object for Version2(), and panics otherwise (mk_sig_block).
+   No hypothesis. *)
+Theorem C05_source_makeSignatureBlock (v : version) (sig chunk : bytes) (final : bool) :
+  fst (run_func2 ext_ver f_saltpack_makeSignatureBlock [g_version v; VBytes sig; VBytes chunk; VBool final])
+  = match mk_sig_block v (VBytes sig) (VBytes chunk) final with Some b => ORet [b] | None => OPanic end.
+Proof. exact (go_makeSignatureBlock v sig chunk final). Qed.
+
+(* s.computeSig(chunk, seqno, isFinal) returns (ed_sign secretKey (attached_sig_input version headerHash chunk
+   seqno isFinal), nil); for a version with no signature input (attachedSignatureInput panics) the evaluator
+   reports OStuck "call".  No hypothesis: every crypto record, receiver state, chunk, sequence number, flag. *)
+Theorem C05_source_computeSig (c : crypto) (st : sas_state) (chunk : bytes) (seqno : N) (final : bool) :
+  fst (run_func2 (ext_sig c) f_saltpack_signAttachedStream_computeSig
+                 [g_sas st; VBytes chunk; VInt (Z.of_N seqno); VBool final])
+  = match attached_sig_input c (sas_v st) (sas_hh st) chunk seqno final with
+    | Some inp => ORet [VBytes (ed_sign c (sas_sk st) inp); VNil]
+    | None => OStuck "call"
+    end.
+Proof. exact (go_computeSig c st chunk seqno final). Qed.
+
+(* s.signBlock(isFinal) = sas_block: takes up to 1 MiB off the buffer, asserts (checkSignBlockRead /
+   assertEncodedChunkState: BStuck where they panic), signs, hands the packet mp_encode (mv_sig_block version
+   sig chunk final) to the encoder; returns the encoder's error (seqno unchanged) or nil (seqno+1 mod 2^64); the
+   receiver `s` holds the new buffer, encoder and seqno.  Hypothesis: sas_seq st < 2^64 (s.seqno is a uint64). *)
+Theorem C05_source_signBlock (c : crypto) (enc_step : gval -> bytes -> gval * gerr) (st : sas_state) (final : bool) :
+  (sas_seq st < two64)%N ->
+  let r := run_func2 (ext_block c enc_step) f_saltpack_signAttachedStream_signBlock [g_sas st; VBool final] in
+  match sas_block c enc_step st final with
+  | BStuck w => fst r = OStuck w
+  | BRet e st' => fst r = ORet [g_errv e] /\ lookup "s" (snd r) = Some (g_sas st')
+  end.
+Proof. exact (go_signBlock c enc_step st final). Qed.
+
+(* s.Write(p) = sas_write F: p is appended to the buffer, then while more than 1 MiB is buffered signBlock(false)
+   runs (with the meaning C05_source_signBlock proves); returns (len p, nil), or (0, err) at the first block whose
+   signBlock fails; the receiver state as left.  Hypothesis: 5 <= F, where F is the number of turns the EVALUATOR
+   gives a loop (run_func2_at (F+3)); sas_write F says WStuck "loop fuel" when F or more blocks would have to be
+   flushed — a bound on the evaluator, not on the Go code. *)
+Theorem C05_source_signAttachedStream_Write (c : crypto) (enc_step : gval -> bytes -> gval * gerr)
+        (F : nat) (st : sas_state) (p : bytes) :
+  (5 <= F)%nat ->
+  let r := run_func2_at (S (S (S F))) (ext_stream c enc_step) f_saltpack_signAttachedStream_Write [g_sas st; VBytes p] in
+  match sas_write c enc_step F st p with
+  | WStuck w => fst r = OStuck w
+  | WRet n e st' => fst r = ORet [VInt n; g_errv e] /\ lookup "s" (snd r) = Some (g_sas st')
+  end.
+Proof. exact (go_signAttachedStream_Write c enc_step F st p). Qed.
+
+(* the same at the fuel of run_func2 (F = 297: up to 296 MiB flushed by one Write).  No hypothesis. *)
+Theorem C05_source_signAttachedStream_Write_300 (c : crypto) (enc_step : gval -> bytes -> gval * gerr)
+        (st : sas_state) (p : bytes) :
+  let r := run_func2 (ext_stream c enc_step) f_saltpack_signAttachedStream_Write [g_sas st; VBytes p] in
+  match sas_write c enc_step 297 st p with
+  | WStuck w => fst r = OStuck w
+  | WRet n e st' => fst r = ORet [VInt n; g_errv e] /\ lookup "s" (snd r) = Some (g_sas st')
+  end.
+Proof. exact (go_signAttachedStream_Write_300 c enc_step st p). Qed.
+
+(* s.Close() = sas_close, EVERY version.  Version1: flush a non-empty buffer with signBlock(false) (its error is
+   returned; panic if bytes remain), then return signBlock(true); Version2: signBlock(true), its error returned,
+   panic if bytes remain; any other version panics.  Result, error and receiver state.  No hypothesis. *)
+Theorem C05_source_signAttachedStream_Close (c : crypto) (enc_step : gval -> bytes -> gval * gerr) (st : sas_state) :
+  let r := run_func2 (ext_stream c enc_step) f_saltpack_signAttachedStream_Close [g_sas st] in
+  match sas_close c enc_step st with
+  | CloseStuck w => fst r = OStuck w
+  | ClosePanic => fst r = OPanic
+  | CloseRet e st' => fst r = ORet [g_errv e] /\ lookup "s" (snd r) = Some (g_sas st')
+  end.
+Proof. exact (go_signAttachedStream_Close c enc_step st). Qed.
+
+(* newSignAttachedStream(version, w, signer) = sas_new: ErrBadVersion unless known_version, ErrInvalidParameter
+   for a nil signer, ErrRand when the randomness source cannot give 16 bytes, the encoder's error if writing the
+   header packet fails, else the object {version, headerHash = sha512 of the model's header bytes
+   (sig_header_bytes with the nonce drawn), encoder after the double-encoded header, secretKey, seqno = 0}.
+   The process-wide randomness source is not an argument of the Go constructor: r is the stream it will
+   deliver (extern table ext_new ... r).  No hypothesis. *)
+Theorem C05_source_newSignAttachedStream (c : crypto) (enc_step : gval -> bytes -> gval * gerr)
+        (v : version) (w : gval) (signer : option bytes) (r : rng) :
+  fst (run_func2 (ext_new c enc_step r) f_saltpack_newSignAttachedStream [g_version v; w; g_signer signer])
+  = sas_new c enc_step v w signer r.
+Proof. exact (go_newSignAttachedStream c enc_step v w signer r). Qed.
+
+(* NOT EXPRESSIBLE: checkSignBlockRead starts by binding a function literal (`die := func() {..}`), which the
+   translator renders as unsupported: the evaluator is stuck on that first statement for ALL five arguments.
+   Hypothesis: the argument list has the function's five entries. *)
+Theorem C05_source_checkSignBlockRead_not_expressible (args : list gval) :
+  List.length args = 5%nat ->
+  fst (run_func2 ext_ver f_saltpack_checkSignBlockRead args) = OStuck "assign".
+Proof. exact (go_checkSignBlockRead_not_expressible args). Qed.
+
+(* what can be said instead: the statements AFTER the literal (csbr_tail = the tail of the translated body), run in
+   the environment of the five parameters with `die` a call that does not return, fall through exactly when
+   read_ok holds (the reading signBlock's extern checkSignBlockRead has), reach die() (CStuck "extern") on the four
+   conditions of the source, and panic on an unknown version.  No hypothesis. *)
+Theorem C05_source_checkSignBlockRead_tail (v : version) (final : bool) (bs cl bl : Z) :
+  exec2 ext_ver 299 (csbr_env v final bs cl bl) csbr_tail
+  = if read_ok v final bs cl bl then CNorm (csbr_env v final bs cl bl)
+    else if ((bs <? cl)%Z || ((cl <? bs)%Z && (0 <? bl)%Z) || version_eqb v v1 || version_eqb v v2)%bool
+         then CStuck "extern"
+         else CPanic.
+Proof. exact (go_checkSignBlockRead_tail v final bs cl bl). Qed.
+
+Print Assumptions C05_source_makeSignatureBlock.
+Print Assumptions C05_source_computeSig.
+Print Assumptions C05_source_signBlock.
+Print Assumptions C05_source_signAttachedStream_Write.
+Print Assumptions C05_source_signAttachedStream_Write_300.
+Print Assumptions C05_source_signAttachedStream_Close.
+Print Assumptions C05_source_newSignAttachedStream.
+Print Assumptions C05_source_checkSignBlockRead_not_expressible.
+Print Assumptions C05_source_checkSignBlockRead_tail.
 Print Assumptions C05_armored_form_agrees.
 Print Assumptions C05_roundtrip.
 Print Assumptions C05_unknown_signer.
